@@ -43,6 +43,13 @@ def oracle_c08(rec):
     inp = {"text": case.text, "history": genrun.history(log)[:80]}
     calls = rec["obs"].chooses
     choice_pos = [i for i, x in enumerate(log) if x[0] == "choice"]
+    # the weight each descriptor was WRITTEN with, by (position in its object, printed form without extension, bond characters)
+    written = {}
+    for el in case.mol._elements:
+        toks = (el.repeat_tokens + el.end_tokens) if isinstance(el, Stochastic) else [el]
+        for tk in toks:
+            for bd in tk.bond_descriptors:
+                written.setdefault((bd.descriptor_num, bd.generate_string(False), str(bd.preceding_characters)), set()).add(float(bd.weight))
     claimed = set()
     kinds = {}
     for c in calls:
@@ -60,6 +67,15 @@ def oracle_c08(rec):
             continue
         claimed.add(pos)
         _, a, p, r = log[pos]
+        if k == "open" and len(c["bds"]) > 1:
+            # the open descriptors of the growing molecule are offered with the weights they were written with (a single open descriptor may
+            # carry the left terminal's weight: the transfer is checked below)
+            for i, b in enumerate(c["bds"]):
+                ws_ = written.get((b.descriptor_num, b.generate_string(False), str(b.preceding_characters)))
+                if ws_ is not None and len(ws_) == 1 and not close(c["w"][i], next(iter(ws_))):
+                    out.append(("offered-weight-differs-from-written", inp, f"open pick over {len(c['bds'])} descriptors: descriptor #{i} ({b.generate_string(False)}, "
+                                f"position {b.descriptor_num}) is offered with weight {c['w'][i]} but was written with {next(iter(ws_))}", None))
+                    break
         want_p = law([c["w"][i] for i in want_idx])
         if a != want_idx:
             out.append(("options", inp, f"{k} pick: options handed to the generator {a}, compatible descriptors {want_idx}", None))
